@@ -257,6 +257,20 @@ func cmdConcFree(args []string) {
 	id := 0
 	for round := 0; round < rounds; round++ {
 		hs := ComposeDriverSeeded(args[2], njobs, int64(round))
+		// half of the jobs import many paths nobody has seen before (process-wide caches, if any, fill up and turn over)
+		for i := range hs {
+			if i%2 == 0 {
+				st := &symtab{}
+				h := []Action{newAct("", "")}
+				for k := 0; k < 24; k++ {
+					p := fmt.Sprintf("fresh/r%dj%dk%d/pkg%d", round, i, k, k%5)
+					h = append(h, Action{A: "Add", Tree: varQ(p, st.sym(p))})
+				}
+				h[0].Ctor = "NewFilePath"
+				h[0].Local = fmt.Sprintf("fresh/local/r%dj%d", round, i)
+				hs[i] = append(h, Action{A: "Render"})
+			}
+		}
 		solo := make([][]byte, len(hs))
 		for i, h := range hs {
 			solo[i] = RunHistory(h, false)
